@@ -132,7 +132,9 @@ fn len_bucket(n: usize) -> &'static str {
         2..=5 => "2-5",
         6..=20 => "6-20",
         21..=49 => "21-49",
-        _ => "50",
+        50 => "50",
+        51..=1024 => "51-1024",
+        _ => "above-1024",
     }
 }
 
@@ -531,6 +533,10 @@ fn pick_malformation(rng: &mut Rng) -> &'static str {
 }
 
 fn gen_len(rng: &mut Rng) -> usize {
+    // now and then a fleet: more entries than any "reasonable" cap a client might put on a list
+    if rng.chance(1, 40) {
+        return *rng.pick(&[1023usize, 1024, 1025, 1100, 1300]);
+    }
     match rng.below(10) {
         0 => 0,
         1 => 1,
